@@ -357,6 +357,9 @@ func definitelyNonNilErr(v ssa.Value, depth int) bool {
 			if g, ok := x.X.(*ssa.Global); ok && strings.HasPrefix(g.Name(), "Err") || ok && strings.HasPrefix(g.Name(), "err") {
 				return true
 			}
+			if g, ok := x.X.(*ssa.Global); ok && g.Pkg != nil && g.Pkg.Pkg.Path() == "io" && g.Name() == "EOF" {
+				return true
+			}
 		}
 	case *ssa.Phi:
 		for _, e := range x.Edges {
@@ -537,7 +540,7 @@ func (c *Ctx) judgeFailureRegion(fn *ssa.Function, call *ssa.Call, e ssa.Value, 
 				// no error result: accept only a nil/zero "no value" return for digest computation
 				// (the digest helpers: Hash and the unexported functions it delegates to;
 				// rule C5 then requires every caller to test the value)
-				if isNoValueReturn(r) && (strings.HasSuffix(name(fn), ".Hash") || fn.Object() != nil && !fn.Object().Exported() && strings.HasPrefix(name(fn), "authenticode.")) {
+				if isNoValueReturnIn(r, seen) && (strings.HasSuffix(name(fn), ".Hash") || fn.Object() != nil && !fn.Object().Exported() && strings.HasPrefix(name(fn), "authenticode.")) {
 					continue
 				}
 				okAll = false
@@ -565,6 +568,29 @@ func returnsAfter(call *ssa.Call, r *ssa.Return) bool {
 		}
 	}
 	return false
+}
+
+// isNoValueReturnIn: on the paths of the region the return hands out nil/zero
+// (a merged result is judged by the edges that come out of the region).
+func isNoValueReturnIn(r *ssa.Return, region map[int]bool) bool {
+	for _, v := range r.Results {
+		ph, isPhi := v.(*ssa.Phi)
+		if !isPhi || ph.Block() != r.Block() {
+			if !isNoValueReturn(&ssa.Return{Results: []ssa.Value{v}}) {
+				return false
+			}
+			continue
+		}
+		for k, pred := range ph.Block().Preds {
+			if !region[pred.Index] {
+				continue
+			}
+			if !isNoValueReturn(&ssa.Return{Results: []ssa.Value{ph.Edges[k]}}) {
+				return false
+			}
+		}
+	}
+	return true
 }
 
 func isNoValueReturn(r *ssa.Return) bool {
@@ -628,7 +654,31 @@ func (c *Ctx) errOperandOK(fn *ssa.Function, r *ssa.Return, ev, e ssa.Value, reg
 			}
 		}
 	}
-	return false
+	// another error value (an earlier failure handed in): fine if, coming out of the
+	// failure region, the return is only entered on edges where that value tested non-nil
+	rb := r.Block()
+	entered, all := 0, true
+	for _, pred := range rb.Preds {
+		if !region[pred.Index] {
+			continue
+		}
+		entered++
+		ifi, isIf := pred.Instrs[len(pred.Instrs)-1].(*ssa.If)
+		if !isIf {
+			all = false
+			continue
+		}
+		v, nilWhenTrue, isNilTest := ir.NilCheck(ifi.Cond)
+		if !isNilTest || v != ev {
+			all = false
+			continue
+		}
+		takenTrue := pred.Succs[0] == rb
+		if takenTrue == nilWhenTrue {
+			all = false // entered on the edge where it is nil
+		}
+	}
+	return entered > 0 && all
 }
 
 func isPhi(v ssa.Value) bool { _, ok := v.(*ssa.Phi); return ok }
